@@ -1,10 +1,14 @@
 SPECIFICATION PSpec
 CONSTANTS
   MaxLen = 5
+  Probes = {"str", "tcp", "zk", "other", "names", "cache", "prov"}
+  LookupInherited = FALSE
+  OneShot = FALSE
 INVARIANT SplitJoin
 INVARIANT TcpRoundTrip
 INVARIANT ZkRoundTrip
 INVARIANT OtherRejected
 INVARIANT NamesLaw
 INVARIANT CacheFaithful
+INVARIANT ProviderIsValue
 CHECK_DEADLOCK FALSE
